@@ -52,3 +52,59 @@ func H_C01_seq_t() { hC01seq(3, 3, 4, 2, false) }
 // C11 (quiescent part): a full Items scan after every step.
 func H_C11_seq_q() { hC01seq(3, 3, 2, 2, true) }
 func H_C11_seq_t() { hC01seq(3, 4, 3, 2, true) }
+
+// hC01chain: REAL slotsPerBucket (31). 34 keys whose hashes agree in the low
+// three bits (full hashes symbolic and pairwise distinct): after the first split
+// they all sit in one chain of a full bucket plus an overflow bucket. Then L
+// symbolic steps on the keys at the interesting positions (first/last slot of the
+// head bucket, first/last slot of the overflow bucket), map semantics after every
+// step and a full Items scan at the end.
+func hC01chain(L int) {
+	vAssert(slotsPerBucket == 31, "C01.chain.real-constant")
+	nk := 34
+	vlen := 2
+	opts := smallOpts(fs.Mem, 8, 10+8+vlen)
+	db, err := Open("c01c", opts)
+	vAssert(err == nil, "C01.chain.open")
+	if err != nil {
+		return
+	}
+	r := newRef(nk, 8)
+	for i := 0; i < nk; i++ {
+		h := db.hash(r.keys[i])
+		vAssume(h&7 == 1)
+		for j := 0; j < i; j++ {
+			vAssume(h != db.hash(r.keys[j]))
+		}
+	}
+	for i := 0; i < nk; i++ {
+		applyOp(db, r, 0, i, vlen, "C01.chain.fill")
+	}
+	if db.index.overflow.size > int64(headerSize) {
+		vCover("C01.chain.overflow-bucket-at-31-slots")
+	}
+	checkReads(db, r, "C01.chain.filled")
+	focus := []int{0, 30, 31, 33}
+	nops := 2*len(focus) + 1
+	for step := 0; step < L; step++ {
+		var code int
+		if step == 0 {
+			code = vCase() % nops
+		} else {
+			code = vChoice("op", nops)
+		}
+		switch {
+		case code < len(focus):
+			applyOp(db, r, 0, focus[code], vlen, "C01.chain.step")
+		case code < 2*len(focus):
+			applyOp(db, r, 1, focus[code-len(focus)], vlen, "C01.chain.step")
+		default:
+			applyOp(db, r, 2, 0, vlen, "C01.chain.step")
+		}
+		checkReads(db, r, "C01.chain.step")
+	}
+	checkItems(db, r, "C01.chain.final")
+	vCover("C01.chain.done")
+}
+
+func H_C01_chain31() { hC01chain(2) }
